@@ -317,48 +317,25 @@ theorem pair_eq {r1 r : Res} {e1 env' : Env} (h : (r1, e1) = (r, env')) : r1 = r
 
 /-! ### number-like strings, value texts -/
 
-theorem numberLike_of_trim {v t : Bytes} (hv : trimSpace v = t)
-    (hcase : (∃ r, t = 43 :: r ∧ ∀ b ∈ r, isWordB b = true) ∨ (∃ r, t = 45 :: r ∧ ∀ b ∈ r, isWordB b = true) ∨
-      ((∀ r, t ≠ 43 :: r) ∧ (∀ r, t ≠ 45 :: r) ∧ ∀ b ∈ t, isWordB b = true)) :
+theorem numberLike_of_lit {v : Bytes} {c : UInt8} {rest : Bytes}
+    (hstrip : stripSign (trimSpace v) = c :: rest)
+    (h1 : 48 ≤ c) (h2 : c ≤ 57) (hall : ∀ b ∈ c :: rest, isWordB b = true) :
     numberLike v = true := by
   unfold numberLike
-  rw [hv]
-  simp only []
-  have conv : ∀ l : Bytes, (∀ b ∈ l, isWordB b = true) →
-      (l.all fun c => isNameChar c || c == 64 || c == 35) = true := by
-    intro l hl
-    rw [List.all_eq_true]
+  split
+  · rfl
+  · rw [hstrip]
+    simp only []
+    have hc : (decide (48 ≤ c) && decide (c ≤ 57)) = true := by simp [h1, h2]
+    rw [hc, Bool.true_and, List.all_eq_true]
     intro b hb
-    have := hl b hb
+    have := hall b hb
     unfold isWordB at this
     exact this
-  rcases hcase with ⟨r, rfl, hr⟩ | ⟨r, rfl, hr⟩ | ⟨h1, h2, hr⟩
-  · exact conv r hr
-  · exact conv r hr
-  · split
-    · exact absurd rfl (h1 _)
-    · exact absurd rfl (h2 _)
-    · exact conv t hr
 
 theorem numberLike_name {n : Bytes} (h : validName n = true) : numberLike n = true := by
-  cases n with
-  | nil => simp [validName] at h
-  | cons c rest =>
-    simp only [validName, Bool.and_eq_true, List.all_eq_true] at h
-    obtain ⟨hc, hrest⟩ := h
-    obtain ⟨h43, h45, _, _⟩ := nameStart_facts hc
-    have hchar : ∀ b ∈ c :: rest, isNameChar b = true := by
-      intro b hb
-      rcases List.mem_cons.1 hb with rfl | hb
-      · simp [isNameChar, hc]
-      · exact hrest b hb
-    have ht : trimSpace (c :: rest) = c :: rest := by
-      have := trimSpace_mid (pre := []) (post := []) (mid := c :: rest) (by simp) (by simp) (by simp)
-        (fun b hb => (nameChar_facts (hchar b hb)).2)
-      simpa using this
-    refine numberLike_of_trim ht (Or.inr (Or.inr ⟨?_, ?_, fun b hb => (nameChar_word (hchar b hb)).1⟩))
-    · intro r he; simp at he; exact h43 he.1
-    · intro r he; simp at he; exact h45 he.1
+  unfold numberLike
+  rw [if_pos h]
 
 theorem numberLike_intLit {v : Bytes} {neg : Bool} {k : Nat} (h : IntLit v neg k) :
     numberLike v = true := by
@@ -368,29 +345,37 @@ theorem numberLike_intLit {v : Bytes} {neg : Bool} {k : Nat} (h : IntLit v neg k
     obtain ⟨_, h43, h45⟩ := digit_not_start h1 h2
     have ht := trimSpace_mid (isBlanks_space hpre) (isBlanks_space hpost) (by simp)
       (lit_no_space hl)
-    refine numberLike_of_trim ht (Or.inr (Or.inr ⟨?_, ?_, specNumber_wordChars hl⟩))
-    · intro r he; simp at he; exact h43 he.1
-    · intro r he; simp at he; exact h45 he.1
+    refine numberLike_of_lit (c := c) (rest := rest) ?_ h1 h2 (specNumber_wordChars hl)
+    rw [ht]
+    unfold stripSign
+    split
+    · rename_i heq; simp at heq; exact absurd heq.1 h43
+    · rename_i heq; simp at heq; exact absurd heq.1 h45
+    · rfl
   | plus pre lit post n hpre hpost hl =>
-    have e : pre ++ 43 :: lit ++ post = pre ++ (43 :: lit) ++ post := by simp
-    have hmid : ∀ b ∈ (43 : UInt8) :: lit, isSpaceB b = false := by
+    obtain ⟨c, rest, rfl, h1, h2⟩ := specNumber_starts_digit hl
+    have e : pre ++ 43 :: (c :: rest) ++ post = pre ++ (43 :: c :: rest) ++ post := by simp
+    have hmid : ∀ b ∈ (43 : UInt8) :: c :: rest, isSpaceB b = false := by
       intro b hb
       rcases List.mem_cons.1 hb with rfl | hb
       · decide
       · exact lit_no_space hl b hb
     have ht := trimSpace_mid (isBlanks_space hpre) (isBlanks_space hpost) (by simp) hmid
     rw [← e] at ht
-    exact numberLike_of_trim ht (Or.inl ⟨lit, rfl, specNumber_wordChars hl⟩)
+    refine numberLike_of_lit (c := c) (rest := rest) ?_ h1 h2 (specNumber_wordChars hl)
+    rw [ht]; rfl
   | minus pre lit post n hpre hpost hl =>
-    have e : pre ++ 45 :: lit ++ post = pre ++ (45 :: lit) ++ post := by simp
-    have hmid : ∀ b ∈ (45 : UInt8) :: lit, isSpaceB b = false := by
+    obtain ⟨c, rest, rfl, h1, h2⟩ := specNumber_starts_digit hl
+    have e : pre ++ 45 :: (c :: rest) ++ post = pre ++ (45 :: c :: rest) ++ post := by simp
+    have hmid : ∀ b ∈ (45 : UInt8) :: c :: rest, isSpaceB b = false := by
       intro b hb
       rcases List.mem_cons.1 hb with rfl | hb
       · decide
       · exact lit_no_space hl b hb
     have ht := trimSpace_mid (isBlanks_space hpre) (isBlanks_space hpost) (by simp) hmid
     rw [← e] at ht
-    exact numberLike_of_trim ht (Or.inr (Or.inl ⟨lit, rfl, specNumber_wordChars hl⟩))
+    refine numberLike_of_lit (c := c) (rest := rest) ?_ h1 h2 (specNumber_wordChars hl)
+    rw [ht]; rfl
 
 theorem exprText_not_name {v : Bytes} (h : ExprText v) : validName v = false := by
   cases hv : validName v with
